@@ -330,6 +330,11 @@ def run(ck: Check):
                         fail("client-payload-type", f"payload type {st['payload_type']} without encoding", st)
                     if not st["user_headers_untouched"]:
                         fail("client-mutates-user-headers", "the caller's headers dict was modified", st)
+                    posted = {k: v for k, v in (st["calls"][0]["headers"] if st["calls"] else [])}
+                    lost = [[k, v] for k, v in e.get("user_headers", [])
+                            if k not in ("content-type", "SOAPAction") and posted.get(k) != v]
+                    if lost:
+                        fail("client-user-headers-lost", f"user headers {lost} are not among the posted headers {posted}", st)
                     if not st["result_equal"]:
                         fail("client-response-roundtrip", "send() did not return the response parsed into the output class", st)
                 elif s == "fault":
